@@ -80,7 +80,7 @@ func LiteDump(l *lite.DB) (*Dump, error) {
 		td := &TableDump{Name: t.Name, Cols: t.Cols, WithoutRowid: t.WithoutRowid, Idx: map[string][][]interface{}{}, IdxOrdered: map[string]bool{}}
 		sel := colList(t.Cols)
 		if !t.WithoutRowid {
-			sel = "rowid, " + sel
+			sel = RowidKeyword(t.Cols) + ", " + sel
 		}
 		q := fmt.Sprintf("SELECT %s FROM %s NOT INDEXED ORDER BY %s", sel, QI(t.Name), t.PKOrder(l))
 		if t.WithoutRowid {
@@ -170,7 +170,7 @@ func littleDump(h *sqlittle.DB, d *sdb.Database, _ bool) (*Dump, error) {
 		td := &TableDump{Name: sc.name, Cols: cols, WithoutRowid: sc.s.WithoutRowid, Idx: map[string][][]interface{}{}, IdxOrdered: map[string]bool{}}
 		sel := append([]string{}, cols...)
 		if !sc.s.WithoutRowid {
-			sel = append([]string{"rowid"}, sel...)
+			sel = append([]string{RowidKeyword(cols)}, sel...)
 		}
 		td.Rows, err = SelectAll(h, sc.name, sel...)
 		if err != nil {
@@ -204,7 +204,8 @@ func DumpDiff(got, want *Dump) string {
 	}
 	for _, n := range wn {
 		g, w := got.Tables[n], want.Tables[n]
-		if strings.Join(g.Cols, ",") != strings.Join(w.Cols, ",") {
+		// column names are identifiers: case-insensitive in SQLite
+		if !strings.EqualFold(strings.Join(g.Cols, ","), strings.Join(w.Cols, ",")) {
 			return fmt.Sprintf("table %s columns: got %v want %v", n, g.Cols, w.Cols)
 		}
 		if g.WithoutRowid != w.WithoutRowid {
